@@ -23,6 +23,8 @@ def cfg(name, k=2, srcends='{"eof", "err"}', iniends='{"closesend", "cancel"}', 
 cfg("fwd_k1", k=1)                                     # smallest: calibration
 cfg("fwd_q", k=2)                                      # quick tier: every end mode / fault / position with <= 2 messages each way
 cfg("fwd_t", k=3)                                      # thorough tier
+cfg("fwd_t3s", k=3, syncs="{TRUE}")                   # K = 3, barrier scripts only (completeness; small interleaving)
+cfg("fwd_q2s", k=2, syncs="{TRUE}")
 cfg("fwd_live", k=1, invs=None, props="EndTogether Complete")      # leads-to under weak fairness
 cfg("fwd_live2", k=2, post="FALSE", invs=None, props="EndTogether Complete")
 cfg("fwd_draft", k=2, race="FALSE")                    # the calibration draft's resolution of the select race (towards the latch)
